@@ -362,6 +362,14 @@ async def process_resource_causes(
             unslept = await aiotime.sleep(consistency_time - loop.time(), wakeup=stream_pressure)
             consistency_is_achieved = unslept is None  # "woke up" vs. "timed out"
     consistency_is_achieved = consistency_is_achieved and patch_initially_empty
+    # While the operator is paused, its watch-streams are closed: the awaited version cannot arrive,
+    # so the timeout proves nothing. The event at hand is a stale leftover (e.g. of a re-listing that
+    # was queued behind a running handler); acting on it would repeat the handlers that have already
+    # succeeded and stored that in the very patch being awaited. The listing that follows
+    # the un-pausing brings the real state. So, never fake the consistency while paused.
+    if (consistency_is_required and consistency_time is not None
+            and operator_paused is not None and operator_paused.is_on()):
+        consistency_is_achieved = False
     if consistency_is_required and not consistency_is_achieved:
         return list(spawning_delays), False  # exit to PATCHing and/or re-iterating over new events.
 
